@@ -26,10 +26,12 @@
 (*                        never-used stamp                                 *)
 (*   order       cached names; LRU: least recently used first;             *)
 (*               dict: insertion order                                     *)
-(*   ret         observable outcome of the last step: the operation, its   *)
-(*               result (rendered version / TemplateNotFound(name) /       *)
-(*               TemplatesNotFound) and the sequence of names the loader   *)
-(*               was asked for (each is one (re)load = compile attempt)    *)
+(*   (observable outcome of a get / select: the result -- rendered version  *)
+(*    / TemplateNotFound(name) / TemplatesNotFound -- and the sequence of   *)
+(*    names the loader was asked for, each one (re)load = compile attempt;  *)
+(*    it is a function of the state, `LoadOne` / `SelFold`, not a variable, *)
+(*    so the properties below speak about EVERY get / select possible in a  *)
+(*    state)                                                                *)
 (*   rank        ghost: names in the order of their last *use* by the      *)
 (*               cache (a lookup that finds the name cached, or a store).  *)
 (*               Maintained without any reference to eviction, so that     *)
@@ -53,9 +55,9 @@ CONSTANTS Names,       \* template names, e.g. {"a", "b", "c"}
           NoVal,       \* "not cached" (a model value)
           EmitGraph    \* TRUE: print every transition as a JSON line (graph export for the replay)
 
-VARIABLES kind, autoReload, src, mapping, order, ret, rank
+VARIABLES kind, autoReload, src, mapping, order, rank
 
-vars == <<kind, autoReload, src, mapping, order, ret, rank>>
+vars == <<kind, autoReload, src, mapping, order, rank>>
 
 Absent == 0
 Versions == 1..NVersions
@@ -67,7 +69,7 @@ Entry == [v : Versions, fresh : BOOLEAN]
 \* the dict never evicts; give the (unused) LRU instance room for every name
 EffCap == IF CacheSize < 0 THEN Cardinality(Names) ELSE CacheSize
 
-L == INSTANCE LRU WITH Keys <- Names, Vals <- Entry, Cap <- EffCap, MaxHist <- 0, hist <- <<>>
+L == INSTANCE LRU WITH Keys <- Names, Vals <- Entry, Cap <- EffCap, MaxHist <- 0, hist <- <<>>, ret <- <<>>
 
 \* lists tried by select_template: the empty list and every pair of distinct names
 SelLists == {<<>>} \cup {p \in Names \X Names : p[1] # p[2]}
@@ -77,7 +79,6 @@ NotFound(n) == <<"notfound", n, 0>>         \* TemplateNotFound(n)
 NoneFound == <<"nonefound", "", 0>>         \* TemplatesNotFound
 NoRes == <<"none", "", 0>>
 
-Out(op, res, loads) == [op |-> op, res |-> res, loads |-> loads]
 
 \* every loader state is reachable from the empty loader through Add / Modify / Delete
 Init ==
@@ -86,7 +87,6 @@ Init ==
     /\ src = [n \in Names |-> Absent]
     /\ mapping = [n \in Names |-> NoVal]
     /\ order = <<>>
-    /\ ret = Out(<<"init">>, NoRes, <<>>)
     /\ rank = <<>>
 
 (* -- the loader's up-to-date check ------------------------------------------ *)
@@ -151,7 +151,6 @@ Get(n) ==                                   \* env.get_template(n).render()
     /\ mapping' = r.m
     /\ order' = r.o
     /\ rank' = Use(rank, n, r.used)
-    /\ ret' = Out(<<"get", n>>, r.res, r.loads)
     /\ UNCHANGED <<kind, autoReload, src>>
     /\ Emit(<<"get", n>>, r.res, r.loads)
 
@@ -160,7 +159,6 @@ Select(ns) ==                               \* env.select_template(ns).render()
     /\ mapping' = r.m
     /\ order' = r.o
     /\ rank' = r.rk
-    /\ ret' = Out(<<"select", ns>>, r.res, r.loads)
     /\ UNCHANGED <<kind, autoReload, src>>
     /\ Emit(<<"select", ns>>, r.res, r.loads)
 
@@ -173,7 +171,6 @@ Staled(n) ==
 Change(n, v, what) ==
     /\ src' = [src EXCEPT ![n] = v]
     /\ mapping' = Staled(n)
-    /\ ret' = Out(<<what>>, NoRes, <<>>)
     /\ UNCHANGED <<kind, autoReload, order, rank>>
     /\ Emit(<<what, n, v>>, NoRes, <<>>)
 
@@ -189,7 +186,6 @@ Overlay ==
     /\ mapping' = [n \in Names |-> NoVal]
     /\ order' = <<>>
     /\ rank' = <<>>
-    /\ ret' = Out(<<"overlay">>, NoRes, <<>>)
     /\ UNCHANGED <<kind, autoReload, src>>
     /\ Emit(<<"overlay">>, NoRes, <<>>)
 
@@ -202,10 +198,12 @@ Next ==
 Spec == Init /\ [][Next]_vars
 
 (* -- properties ----------------------------------------------------------------- *)
+\* The outcome of a get / select is a function of the state, so every property about
+\* "what a get shows" is a state invariant quantified over all gets possible in the state.
 Present == {n \in Names : mapping[n] # NoVal}
 SeqSet(s) == {s[i] : i \in 1..Len(s)}
-IsGet == ret.op[1] = "get"
-IsSelect == ret.op[1] = "select"
+GetR(n) == LoadOne(mapping, order, n)
+SelR(ns) == SelFold(mapping, order, rank, ns, <<>>)
 
 TypeOK ==
     /\ kind \in Kinds /\ autoReload \in BOOLEAN
@@ -218,28 +216,23 @@ TypeOK ==
 Current(n) == IF src[n] = Absent THEN NotFound(n) ELSE Render(n, src[n])
 
 \* auto-reload + a loader that supplies an up-to-date check: every get renders the
-\* current source, deleted templates raise TemplateNotFound  (Get leaves src alone,
-\* so `src` here is the loader state the get ran against)
+\* current source, deleted templates raise TemplateNotFound
 C25_FreshWhenCheckable ==
-    (IsGet /\ autoReload /\ HasUptodate) => ret.res = Current(ret.op[2])
+    (autoReload /\ HasUptodate) => \A n \in Names : GetR(n).res = Current(n)
+
+\* a served version that is not current is only possible when reloading is off or cannot be checked
+C25_StaleOnlyWhenUncheckable ==
+    \A n \in Names : LET r == GetR(n).res IN
+        (r[1] = "render" /\ r[3] # src[n]) => (~autoReload \/ ~HasUptodate)
 
 \* without auto-reload a cached template is served as cached and the loader is not asked
 C25_NeverReloadWhenOff ==
-    [][\A n \in Names :
-         (~autoReload /\ CacheSize # 0 /\ mapping[n] # NoVal /\ ret'.op[1] = "get" /\ ret'.op[2] = n)
-            => (ret'.res = Render(n, mapping[n].v) /\ ret'.loads = <<>>)]_vars
+    (~autoReload /\ CacheSize # 0) =>
+        \A n \in Present : GetR(n).res = Render(n, mapping[n].v) /\ GetR(n).loads = <<>>
 
 \* an up-to-date cached template is served from the cache (that is what the cache is for)
 C25_HitWhenFresh ==
-    [][\A n \in Names :
-         (CacheSize # 0 /\ mapping[n] # NoVal /\ UpToDate(n, mapping[n])
-            /\ ret'.op[1] = "get" /\ ret'.op[2] = n)
-            => ret'.loads = <<>>]_vars
-
-\* whatever is rendered was, at load time, the loader's source: a served version that
-\* is not current is only possible when reloading is off or cannot be checked
-C25_StaleOnlyWhenUncheckable ==
-    (IsGet /\ ret.res[1] = "render" /\ ret.res[3] # src[ret.op[2]]) => (~autoReload \/ ~HasUptodate)
+    CacheSize # 0 => \A n \in Present : UpToDate(n, mapping[n]) => GetR(n).loads = <<>>
 
 C25_Capacity ==
     /\ CacheSize = 0 => Present = {}
@@ -247,16 +240,17 @@ C25_Capacity ==
 
 \* a size-0 cache asks the loader (compiles) on every get
 C25_Size0Recompiles ==
-    (CacheSize = 0 /\ IsGet) => (ret.loads = <<ret.op[2]>> /\ ret.res = Current(ret.op[2]))
+    CacheSize = 0 => \A n \in Names : GetR(n).loads = <<n>> /\ GetR(n).res = Current(n)
 
 \* the victim of an eviction is the least recently used cached name, and nothing is
 \* evicted before the cache is full.  "Least recently used" is read off the ghost `rank`
 \* after the step: every name still cached was used later than the victim (a select may
 \* use -- look up -- a stale cached name before it stores another one).
 Before(rk, a, b) == \E i, j \in 1..Len(rk) : rk[i] = a /\ rk[j] = b /\ i < j
+OverlayStep == mapping' = [n \in Names |-> NoVal] /\ rank' = <<>>
 C25_EvictsLRU ==
     [][\A n \in Names :
-         (mapping[n] # NoVal /\ mapping'[n] = NoVal /\ ret'.op[1] # "overlay")
+         (mapping[n] # NoVal /\ mapping'[n] = NoVal /\ ~OverlayStep)
             => /\ CacheSize > 0 /\ Cardinality(Present) = CacheSize
                /\ \A k \in Names : mapping'[k] # NoVal => Before(rank', n, k)]_vars
 
@@ -266,7 +260,7 @@ C25_OrderIsRecency ==
 
 \* the unbounded cache never forgets
 C25_UnboundedKeeps ==
-    [][CacheSize < 0 /\ ret'.op[1] # "overlay" => \A n \in Names : mapping[n] # NoVal => mapping'[n] # NoVal]_vars
+    [][(CacheSize < 0 /\ ~OverlayStep) => \A n \in Names : mapping[n] # NoVal => mapping'[n] # NoVal]_vars
 
 \* select_template: with checkable freshness (or no cache) the first name that currently
 \* exists wins, rendered from its current source; TemplatesNotFound iff none exists
@@ -275,15 +269,13 @@ FirstExisting(ns) ==
     IF idx = {} THEN NoneFound
     ELSE LET i == CHOOSE i \in idx : \A j \in idx : i <= j IN Render(ns[i], src[ns[i]])
 C25_SelectFirstExisting ==
-    (IsSelect /\ ((autoReload /\ HasUptodate) \/ CacheSize = 0)) => ret.res = FirstExisting(ret.op[2])
+    ((autoReload /\ HasUptodate) \/ CacheSize = 0) => \A ns \in SelLists : SelR(ns).res = FirstExisting(ns)
 
-\* a select never answers TemplatesNotFound while one of its names is cached or exists
+\* a select never answers TemplatesNotFound while one of its names exists
 C25_SelectFindsSomething ==
-    [][\A ns \in SelLists :
-         (ret'.op[1] = "select" /\ ret'.op[2] = ns /\ ret'.res = NoneFound)
-            => \A i \in 1..Len(ns) : src[ns[i]] = Absent]_vars
+    \A ns \in SelLists : SelR(ns).res = NoneFound => \A i \in 1..Len(ns) : src[ns[i]] = Absent
 
-\* cached entries only ever hold a version that was loaded; fresh is only meaningful for stamp kinds
+\* the freshness flag is only ever cleared for loaders whose check compares a stamp
 C25_FreshFlag == \A n \in Present : kind \notin StampKinds => mapping[n].fresh
 
 \* the graph exported for the replay ignores the ghost and the last outcome (edges carry it)
